@@ -452,10 +452,11 @@ static jv *obs_key(const char *key, jv *call, long r, jv *extra)
     return key[1] == 'w' ? cw : key[1] == 'x' ? cx : pp;
   }
   if (!strcmp(key, "cnb")) return j_mkint(c->exec_fds_nonblock);
-  if (!strcmp(key, "fchild")) { /* what the forked child saw in fork mode: [start's return value, pid(), wait(0), number of descriptors above 2, number of blocked signals, result of a second start] */
+  if (!strcmp(key, "fchild")) { /* what the forked child saw in fork mode: [start's return value, pid(), wait(0), number of descriptors above 2, number of blocked signals, result of a second start, own descriptors closed by destroy] */
     jv *a = j_mkarr(); j_push(a, j_mkint(c->forkmode_child ? c->fork_ret : -999)); j_push(a, j_mkint(c->stdin_read)); j_push(a, j_mkint(c->stdin_eof));
     j_push(a, j_mkint(c->forkmode_child ? c->stdin_bad : -999));
-    j_push(a, j_mkint(c->forkmode_child ? c->fk_nblocked : -999)); j_push(a, j_mkint(c->forkmode_child ? c->fk_start2 : -999)); return a;
+    j_push(a, j_mkint(c->forkmode_child ? c->fk_nblocked : -999)); j_push(a, j_mkint(c->forkmode_child ? c->fk_start2 : -999));
+    j_push(a, j_mkint(c->forkmode_child ? c->fk_lost : -999)); return a;
   }
   if (!strcmp(key, "cexec")) return j_mkint(c->execd);
   if (!strcmp(key, "cmask")) return siglist(c->mask, 64);
@@ -1009,12 +1010,19 @@ static void fork_child_epilogue(int h, long r)
     K->in_api = 1;
     int q = reproc_pid(H[h]);
     int w = reproc_wait(H[h], 0);
+    /* the forked child opens descriptors of its own before it destroys its copy of the handle: they must survive that */
+    int mine[6], nmine = 0;
+    K->in_api = 0;
+    for (int q = 0; q < 6; q++) { int o = sk_new_obj(OK_NULL, 0); int fdq = -1; for (int f = 3; f < SK_MAXFD; f++) if (me->fd[f].ofd < 0) { fdq = f; break; } if (fdq >= 0) { sk_install(sk_cur, fdq, o, 2, 0, 0); mine[nmine++] = fdq; } }
+    K->in_api = 1;
     /* the handle counts as started in the child too: a second start is rejected (nothing is created, nobody is forked) */
     const char *argv2[] = { "/bin/c", NULL };
     reproc_options none = { 0 };
     me->fk_start2 = reproc_start(H[h], argv2, none);
     H[h] = reproc_destroy(H[h]);
     K->in_api = 0;
+    me->fk_lost = 0; for (int q2 = 0; q2 < nmine; q2++) if (me->fd[mine[q2]].ofd < 0) me->fk_lost++;
+    for (int q2 = 0; q2 < nmine; q2++) if (me->fd[mine[q2]].ofd >= 0) sk_child_close(sk_cur, mine[q2]);
     me->stdin_read = q; me->stdin_eof = w; /* reuse fields: results of pid()/wait() in the child */
   }
   __real__exit(0);
